@@ -38,6 +38,14 @@ structure Classification where
   remote : Bool := false
   deriving DecidableEq, Repr, Inhabited
 
+/-- what the wrapper loop knows about one wrapper command -/
+structure WrapOpts where
+  /-- options whose argument is a separate word (`_WRAPPER_FLAGS_WITH_ARG[base]`) -/
+  flags : List String := []
+  /-- the wrapper's first positional word is a DURATION (`timeout`) -/
+  duration : Bool := false
+  deriving DecidableEq, Repr, Inhabited
+
 structure World where
   parse : String → ParseResult
   matchCommand : List String → String → Bool → Option Match
@@ -50,7 +58,7 @@ structure World where
   simpleSafe : String → Bool
   wrapper : String → Bool
   /-- `_WRAPPER_FLAGS_WITH_ARG.get(base, ())` -/
-  wrapperArgFlags : String → List String
+  wrapperArgFlags : String → WrapOpts
   resolveCd : String → String → String
   safeTarget : String → Bool
   redirectOp : String → Bool
@@ -110,20 +118,41 @@ def isVersionOrHelp (helpWords helpFlags2 helpFlagsLast : List String) (tokens :
   else if helpFlagsLast.contains (tokens.getLastD "") ∧ tokens.length ≤ 4 then true
   else false
 
-/-- the wrapper argument-skipping loop: what remains is the inner command.  `fwa` are the options of
-    this wrapper whose argument is a separate word (`_WRAPPER_FLAGS_WITH_ARG[base]`); the flag
-    says "the next token is such an argument" (`j += 2`) -/
-def skipWrapperAux (fwa : List String) : Bool → List String → List String
+/-- `_TIMEOUT_DURATION.fullmatch(token)`: `(\d+\.?\d*|\.\d+)[smhd]?` – digits, optionally a point and more
+    digits, or a point and digits; then optionally one unit letter (which is neither a digit nor a point, so
+    the split is forced) -/
+def isDuration (t : String) : Bool :=
+  let cs := t.toList
+  let body := match cs.getLast? with
+    | some c => if c == 's' || c == 'm' || c == 'h' || c == 'd' then cs.dropLast else cs
+    | none => cs
+  let lead := body.takeWhile Py.isDecimal
+  let rest := body.dropWhile Py.isDecimal
+  if !lead.isEmpty then
+    match rest with
+    | [] => true
+    | '.' :: frac => frac.all Py.isDecimal
+    | _ => false
+  else
+    match rest with
+    | '.' :: frac => !frac.isEmpty && frac.all Py.isDecimal
+    | _ => false
+
+/-- the wrapper argument-skipping loop: what remains is the inner command.  `fwa.flags` are the options of
+    this wrapper whose argument is a separate word (`_WRAPPER_FLAGS_WITH_ARG[base]`), `fwa.duration` says
+    the wrapper takes a DURATION (`timeout`); the flag says "the next token is such an argument" (`j += 2`) -/
+def skipWrapperAux (fwa : WrapOpts) : Bool → List String → List String
   | _, [] => []
   | true, _ :: ts => skipWrapperAux fwa false ts
   | false, t :: ts =>
     if Py.isDigitStr t || Py.isDigitStr (Py.removeChar t '.') then skipWrapperAux fwa false ts
-    else if fwa.contains t then skipWrapperAux fwa true ts
+    else if fwa.duration && isDuration t then skipWrapperAux fwa false ts
+    else if fwa.flags.contains t then skipWrapperAux fwa true ts
     else if Py.startsWith t "-" && t != "--" then skipWrapperAux fwa false ts
     else if t == "--" then ts
     else t :: ts
 
-def skipWrapperArgs (fwa : List String) (l : List String) : List String := skipWrapperAux fwa false l
+def skipWrapperArgs (fwa : WrapOpts) (l : List String) : List String := skipWrapperAux fwa false l
 
 def matchMsg (m : Match) : String := Py.orElse m.message m.pattern
 
